@@ -8,5 +8,8 @@ CONSTANTS
   FixBatch = FALSE
   LossySend = FALSE
   HasKeepalive = TRUE
+  DirectCalls = TRUE
+  MaxMsgLen = 1
+  AsyncApply = FALSE
 POSTCONDITION TraceReport
 CHECK_DEADLOCK FALSE
